@@ -14,15 +14,16 @@ Definition C_ohb := class_of_name "ObjectHeaderBase".
 Section WithZlib.
 Variable deflate : Z -> list Z -> list Z.
 Variable inflate : list Z -> Z -> option (list Z).
+Variable cap : Z.      (* allocation cap of the host *)
 
 Definition f_write_session :=
-  write_session cs default_cap C_stats C_lc
+  write_session cs cap C_stats C_lc
     (fid_of "LogContainer" "compressionMethod") (fid_of "LogContainer" "uncompressedFileSize") (fid_of "LogContainer" "compressedFile")
     (fid_of "FileStatistics" "statisticsSize") (fid_of "FileStatistics" "fileSize") (fid_of "FileStatistics" "uncompressedFileSize")
     (fid_of "FileStatistics" "objectCount") (fid_of "FileStatistics" "restorePointsOffset") deflate.
 
 Definition f_read_session :=
-  read_session cs scan_p default_cap factory_table C_stats C_lc C_ohb
+  read_session cs scan_p cap factory_table C_stats C_lc C_ohb
     fid_objectSize fid_objectType
     (fid_of "LogContainer" "compressionMethod") (fid_of "LogContainer" "uncompressedFileSize") (fid_of "LogContainer" "compressedFile")
     (fid_of "FileStatistics" "statisticsSize") inflate.
